@@ -38,10 +38,10 @@ Definition cur_op (p : pc) : option op :=
   | I_load => Some IsTriggered | IA_load => Some IsActive
   | W_load tm | W_lock tm | W_test tm | W_pred tm | W_sleep tm | W_woken tm | W_unlock tm _ =>
     Some (if tm then WaitFor else Wait)
-  | W_final => Some WaitFor
+  | W_final | W_relock _ => Some WaitFor
   | V_lock tm | V_test tm | V_pred tm | V_sleep tm | V_woken tm | V_unlock tm _ =>
     Some (if tm then WaitForActivation else WaitActivation)
-  | V_final => Some WaitForActivation
+  | V_final | V_relock _ => Some WaitForActivation
   | R_lock | R_load | R_loop | R_unl | R_relock | R_store | R_unlock => Some Reset
   end.
 
@@ -119,13 +119,13 @@ Qed.
 (* value of `triggered` known at a pc (all such pcs own triggerLock) *)
 Definition needT (p : pc) : option bool :=
   match p with
-  | W_unlock _ r => Some r | W_sleep _ => Some false | W_final => Some false | T_notify _ => Some true
+  | W_unlock _ r => Some r | W_sleep _ => Some false | T_notify _ => Some true
   | _ => None
   end.
 (* value of `activated` known at a pc (all such pcs own activeLock) *)
 Definition needA (p : pc) : option bool :=
   match p with
-  | V_unlock _ r => Some r | V_sleep _ => Some false | V_final => Some false
+  | V_unlock _ r => Some r | V_sleep _ => Some false
   | A_notify => Some true | A_unlockA => Some true | R_unlock => Some false
   | _ => None
   end.
@@ -203,15 +203,7 @@ Proof.
              exists a; rewrite (pcof_upd _ _ _ _ _ Hl); cbn [at_];
              destruct (Nat.eqb_spec a t) as [->|Hne];
              [ rewrite Hp in Hn; cbn in Hn; first [discriminate | split; auto; congruence] | split; auto; congruence ] ] ] ]).
-  - (* wait_for time-out: the thread was still in the sleeper list and the mutex was free, so no trigger store is pending *)
-    inversion H; subst b. destruct (triggered g) eqn:Etr; [exfalso|reflexivity].
-    assert (In t (slT g)) as Hin.
-    { apply mem_In. destruct (mem t (slT g)); [reflexivity|]. rewrite andb_false_r in Heqb0. discriminate. }
-    destruct (HWT t Hin eq_refl) as [a [Ha _]]. discriminate.
-  - inversion H; subst b. destruct (activated g) eqn:Etr; [exfalso|reflexivity].
-    assert (In t (slA g)) as Hin.
-    { apply mem_In. destruct (mem t (slA g)); [reflexivity|]. rewrite andb_false_r in Heqb0. discriminate. }
-    destruct (HWA t Hin eq_refl) as [a [Ha _]]. discriminate.
+
 Qed.
 
 (* ---------- invariant 3: the ghost stamps ---------- *)
@@ -562,14 +554,18 @@ Lemma notified_moves a0 progs s t l tm :
   exists b, enabledT s b 0.
 Proof.
   intros HR Hl [[Hp Hn]|[Hp Hn]]; destruct l as [pr p s1 s2 s3 s4]; cbn in Hp; subst p.
-  - destruct (mT (gl s)) as [a|] eqn:Hm; [exists a; eapply holderT_enabled; eauto|].
-    exists t. eexists; eexists. split; [exact Hl|]. unfold tstep. cbn [at_].
-    assert (mem t (slT (gl s)) = false) as -> by (destruct (mem t (slT (gl s))) eqn:E; [apply mem_In in E; contradiction|reflexivity]).
-    cbn. rewrite Hm. reflexivity.
-  - destruct (mA (gl s)) as [a|] eqn:Hm; [exists a; eapply holderA_enabled; eauto|].
-    exists t. eexists; eexists. split; [exact Hl|]. unfold tstep. cbn [at_].
-    assert (mem t (slA (gl s)) = false) as -> by (destruct (mem t (slA (gl s))) eqn:E; [apply mem_In in E; contradiction|reflexivity]).
-    cbn. rewrite Hm. reflexivity.
+  - assert (mem t (slT (gl s)) = false) as Hmem
+      by (destruct (mem t (slT (gl s))) eqn:E; [apply mem_In in E; contradiction|reflexivity]).
+    destruct tm.
+    + exists t. eexists; eexists. split; [exact Hl|]. unfold tstep. cbn [at_]. rewrite Hmem. cbn. reflexivity.
+    + destruct (mT (gl s)) as [a|] eqn:Hm; [exists a; eapply holderT_enabled; eauto|].
+      exists t. eexists; eexists. split; [exact Hl|]. unfold tstep. cbn [at_]. rewrite Hmem. cbn. rewrite Hm. reflexivity.
+  - assert (mem t (slA (gl s)) = false) as Hmem
+      by (destruct (mem t (slA (gl s))) eqn:E; [apply mem_In in E; contradiction|reflexivity]).
+    destruct tm.
+    + exists t. eexists; eexists. split; [exact Hl|]. unfold tstep. cbn [at_]. rewrite Hmem. cbn. reflexivity.
+    + destruct (mA (gl s)) as [a|] eqn:Hm; [exists a; eapply holderA_enabled; eauto|].
+      exists t. eexists; eexists. split; [exact Hl|]. unfold tstep. cbn [at_]. rewrite Hmem. cbn. rewrite Hm. reflexivity.
 Qed.
 
 (* what a state looks like when nothing can move without a spurious wake-up: every thread has finished its
@@ -604,9 +600,9 @@ Proof.
   - destruct k; discriminate.
   - destruct (activated (gl s)); discriminate.
   - (* W_woken *)
-    right; left. rewrite HfT in Hd2. cbn in Hd2.
-    destruct (mem t (slT (gl s))) eqn:Hm; [|discriminate]. cbn in Hd2.
-    destruct tm; [discriminate|]. apply mem_In in Hm.
+    right; left. destruct tm; [cbn in Hd2; rewrite orb_true_r in Hd2; discriminate|].
+    rewrite HfT in Hd2. cbn in Hd2.
+    destruct (mem t (slT (gl s))) eqn:Hm; [|discriminate]. apply mem_In in Hm.
     assert (triggered (gl s) = false) as Htr.
     { destruct (triggered (gl s)); [|reflexivity]. destruct (HWT Hm eq_refl) as [a [Ha _]]. congruence. }
     repeat split; auto.
@@ -615,9 +611,9 @@ Proof.
     + destruct (le_lt_dec s2 (rexit_stamp (gl s))) as [Hle|Hlt]; [|exact Hlt].
       destruct (HLT Hm (or_intror Hle)) as [a [Ha _]]. congruence.
   - (* V_woken *)
-    right; right. rewrite HfA in Hd2. cbn in Hd2.
-    destruct (mem t (slA (gl s))) eqn:Hm; [|discriminate]. cbn in Hd2.
-    destruct tm; [discriminate|]. apply mem_In in Hm.
+    right; right. destruct tm; [cbn in Hd2; rewrite orb_true_r in Hd2; discriminate|].
+    rewrite HfA in Hd2. cbn in Hd2.
+    destruct (mem t (slA (gl s))) eqn:Hm; [|discriminate]. apply mem_In in Hm.
     assert (activated (gl s) = false) as Htr.
     { destruct (activated (gl s)); [|reflexivity]. destruct (HWA Hm eq_refl) as [a [Ha _]]. congruence. }
     repeat split; auto.
@@ -727,10 +723,10 @@ Proof.
   - destruct (activated (gl s)); discriminate.
   - destruct (mem t (slT (gl s))) eqn:Hm.
     + right; right; left. split; [reflexivity|apply mem_In; exact Hm].
-    + cbn in Hs. destruct (mT (gl s)) as [a|] eqn:Hm2; [right; left; eapply LT; eauto|discriminate].
+    + destruct tm; cbn in Hs; [discriminate|]. destruct (mT (gl s)) as [a|] eqn:Hm2; [right; left; eapply LT; eauto|discriminate].
   - destruct (mem t (slA (gl s))) eqn:Hm.
     + right; right; right. split; [reflexivity|apply mem_In; exact Hm].
-    + cbn in Hs. destruct (mA (gl s)) as [a|] eqn:Hm2; [right; left; eapply LA; eauto|discriminate].
+    + destruct tm; cbn in Hs; [discriminate|]. destruct (mA (gl s)) as [a|] eqn:Hm2; [right; left; eapply LA; eauto|discriminate].
   - destruct (triggered (gl s)); discriminate.
 Qed.
 
@@ -848,24 +844,26 @@ Proof.
   apply (HNR p). eapply nth_error_In; eauto.
 Qed.
 
-(* weights: K = 4 * (number of threads) pays for the sleepers a notify_all turns from un-notified into notified *)
+(* weights: K = 5 * (number of threads) pays for the sleepers a notify_all turns from un-notified into notified *)
 Definition wpc (n : nat) (g : glob) (l : loc) : nat :=
-  let K := 4 * n in
+  let K := 5 * n in
   match at_ l with
   | Idle => 0
   | A_load => K + 9 | A_lockT => K + 8 | A_clear => K + 7 | A_unlockT => K + 6 | A_lockA => K + 5
   | A_set => K + 4 | A_notify => K + 3 | A_unlockA => 1
   | T_load _ => K + 7 | T_lock _ => K + 6 | T_store _ => K + 5 | T_notify _ => K + 3 | T_unlock _ => 1
   | I_load => 1 | IA_load => 1
-  | W_load _ => 10 | W_lock _ => 9 | W_test _ => 8 | W_pred _ => 6 | W_sleep _ => 5
-  | W_woken _ => if ntfT g <? slp l then 3 else 7
+  | W_load _ => 12 | W_lock _ => 11 | W_test _ => 10 | W_pred _ => 7 | W_sleep _ => 6
+  | W_woken _ => if ntfT g <? slp l then 4 else 9
+  | W_relock tmo => if tmo then 3 else 8
   | W_final => 2 | W_unlock _ _ => 1
-  | V_lock _ => 9 | V_test _ => 8 | V_pred _ => 6 | V_sleep _ => 5
-  | V_woken _ => if ntfA g <? slp l then 3 else 7
+  | V_lock _ => 11 | V_test _ => 10 | V_pred _ => 7 | V_sleep _ => 6
+  | V_woken _ => if ntfA g <? slp l then 4 else 9
+  | V_relock tmo => if tmo then 3 else 8
   | V_final => 2 | V_unlock _ _ => 1
   | R_lock | R_load | R_loop | R_unl | R_relock | R_store | R_unlock => 0
   end.
-Definition wloc (n : nat) (g : glob) (l : loc) : nat := (4 * n + 12) * length (prog l) + wpc n g l.
+Definition wloc (n : nat) (g : glob) (l : loc) : nat := (5 * n + 14) * length (prog l) + wpc n g l.
 Definition mu (s : sysT) : nat := list_sum (map (wloc (length (thr s)) (gl s)) (thr s)).
 Definition no_spurious (c : nat) : bool := negb (Nat.eqb c 1).
 
@@ -890,7 +888,7 @@ Proof. intros Hn Hm Hd. pose proof (sum_raise_bound f f' l t x y r Hn Hm). lia. 
 
 Lemma wloc_same n g g' z : ntfT g' = ntfT g -> ntfA g' = ntfA g -> wloc n g' z = wloc n g z.
 Proof. intros H1 H2. unfold wloc, wpc. rewrite H1, H2. reflexivity. Qed.
-Lemma wloc_raise n g g' z : wloc n g' z <= wloc n g z + 4.
+Lemma wloc_raise n g g' z : wloc n g' z <= wloc n g z + 5.
 Proof.
   unfold wloc, wpc. destruct (at_ z); try lia.
   - destruct (ntfT g' <? slp z), (ntfT g <? slp z); lia.
@@ -912,7 +910,7 @@ Proof.
   destruct l as [pr p s1 s2 s3 s4]. cbn [at_ prog slp] in *.
   step_cases Hs.
   all: try (cbn in HRt; rewrite ?andb_false_r in HRt; discriminate).
-  all: try solve [ apply (sum_step_raise (wloc n (gl s)) _ (thr s) t _ _ 4 Hl); [intros z; apply wloc_raise|];
+  all: try solve [ apply (sum_step_raise (wloc n (gl s)) _ (thr s) t _ _ 5 Hl); [intros z; apply wloc_raise|];
               unfold wloc, wpc; cbn [at_ prog length]; fold n;
               try match goal with |- context [?a * length ?b] => generalize (a * length b); intros end; lia ].
   all: apply (sum_step_dec (wloc n (gl s)) _ (thr s) t _ _ Hl).
@@ -922,9 +920,15 @@ Proof.
   all: rewrite ?Nat.mul_succ_r.
   all: try match goal with |- context [?a * length ?b] => generalize (a * length b); intros end.
   all: try lia.
+  all: try match goal with
+           | |- context [mem ?t0 (slT ?g)] => destruct (mem t0 (slT g)) eqn:Hm; destruct (Nat.eqb c 2) eqn:Hc2; cbn [negb andb orb] in *
+           | |- context [mem ?t0 (slA ?g)] => destruct (mem t0 (slA g)) eqn:Hm; destruct (Nat.eqb c 2) eqn:Hc2; cbn [negb andb orb] in *
+           end.
   all: repeat match goal with |- context [?a <? ?b] => destruct (Nat.ltb_spec a b) end; try lia.
-  all: exfalso; first [ pose proof (HTt eq_refl ltac:(assumption)) as Hin | pose proof (HAt eq_refl ltac:(assumption)) as Hin ];
-       apply mem_In in Hin; rewrite Hin, Hc in *; cbn in *; destruct tm; cbn in *; congruence.
+  all: exfalso;
+       first [ rewrite ?Hc in *; cbn in *; congruence
+             | first [ pose proof (HTt eq_refl ltac:(assumption)) as Hin | pose proof (HAt eq_refl ltac:(assumption)) as Hin ];
+               apply mem_In in Hin; rewrite ?Hin, ?Hc in *; cbn in *; try destruct tm; cbn in *; congruence ].
 Qed.
 
 Definition RP (a0 : bool) (progs : list (list op)) (s : sysT) : Prop :=
